@@ -408,6 +408,9 @@ func c04RunProxy(in *c04In) Result {
 	if err != nil {
 		return Result{Term: c04Trivial, Obs: "request rejected by net/http: " + err.Error(), Class: "proxy:request-rejected", Sig: "proxy:request-rejected"}
 	}
+	if c04WebsocketCase(in, req.Header) {
+		return Result{Term: c04Trivial, Obs: "websocket upgrade through the websocket preset: outside the model", Class: "proxy:websocket-out-of-scope", Sig: "proxy:websocket-out-of-scope"}
+	}
 	qterm := c04RequestTerm(req)
 	hadHop := false
 	for _, h := range c04HopNames {
@@ -1022,6 +1025,25 @@ var c04TargetPool = []string{"http://h%d.test", "http://h%d.test/", "http://h%d.
 var c04ReqTargets = []string{"/", "/x", "/api", "/api/x", "/apix", "/api/x%2Fy", "/a%20b", "/x/", "//double", "/api//x", "/a/b/c", "/API/x", "/x%2Fy/z", "/api/", "/x/api/y", "/b/a/c", "/api/api/x", "/v%2F1/api/x"}
 var c04Queries = []string{"", "", "a=b", "a=b&c=d", "q=%20x", "", "a=b?c"}
 
+// c04WebsocketCase: the `websocket` preset copies the client's Connection and Upgrade headers to the
+// upstream request; when those ask for a websocket upgrade ReverseProxy.ServeHTTP takes the
+// connection-hijacking path (needs a real *http.Transport and a hijackable client connection), which
+// is outside the model and the scripted transport.
+func c04WebsocketCase(in *c04In, reqHdr http.Header) bool {
+	if !c04HasDir(in.Dirs, func(d c04Dir) bool { return d.K == "websocket" }) {
+		return false
+	}
+	if !strings.EqualFold(reqHdr.Get("Upgrade"), "websocket") {
+		return false
+	}
+	for _, v := range reqHdr["Connection"] {
+		if strings.Contains(strings.ToLower(v), "upgrade") {
+			return true
+		}
+	}
+	return false
+}
+
 // c04GenProxy draws cases until at most one known-deviation trigger is present, so that every
 // failing class stays attributable to exactly one signature.
 func c04GenProxy(r *Rand) *c04In {
@@ -1030,6 +1052,9 @@ func c04GenProxy(r *Rand) *c04In {
 		req, err := c04ParseRequest(in)
 		if err != nil {
 			return in
+		}
+		if c04WebsocketCase(in, req.Header) {
+			continue // websocket tunnelling (hijacked connections) is outside the model
 		}
 		if len(c04Triggers(in, req.Header)) <= 1 {
 			return in
